@@ -1,11 +1,31 @@
 (* C15 — compiled automata accept exactly the language of the expression that
    built them.  Statements only. *)
 From Coq Require Import List NArith Bool.
-From SNT Require Import Base.Outcome Automata.Regex Automata.NFA Automata.Build Automata.Compile.
+From SNT Require Import Base.Outcome Automata.Regex Automata.NFA Automata.Build Automata.Compile
+  Automata.BuildLeaves Automata.BuildProofs.
 Import ListNotations.
 Local Open Scope N_scope.
+
+(* The NFA built by the public combinators for an expression has a path from its
+   start state to its stop state labelled s exactly when the expression matches
+   s: every expression (arbitrary nesting), every string. *)
+Theorem C15_build : forall (e : regex) (s : list N),
+  accepts (build e) s <-> matches e s.
+Proof. exact build_accepts. Qed.
+
+(* it is well formed (start, stop and every edge target exist) and starts at 0 *)
+Theorem C15_build_wf : forall e : regex, wf (build e) /\ start (build e) = 0%nat.
+Proof. intros e. split; [apply build_wf|apply build_start]. Qed.
+
+Check C15_build : forall (e : regex) (s : list N), accepts (build e) s <-> matches e s.
 
 (* the in-place `optional` of the original code is unsound: (a+ b)? accepts "a" *)
 Theorem C15_optional_inplace_refuted :
   exists e s, (let* d := compile_default (build_v0 e) in dfa_matches d s) = Ok true /\ matcher e s = false.
 Proof. exists (Opt (Seq [Plus (Lit [97]); Lit [98]])), [97]. vm_compute. split; reflexivity. Qed.
+
+Example C15_nonvacuous :
+  (let* d := compile_default (build (Opt (Seq [Plus (Lit [97]); Lit [98]]))) in dfa_matches d [97]) = Ok false /\
+  (let* d := compile_default (build (Opt (Seq [Plus (Lit [97]); Lit [98]]))) in dfa_matches d [97; 97; 98]) = Ok true /\
+  matcher (Opt (Seq [Plus (Lit [97]); Lit [98]])) [97; 97; 98] = true.
+Proof. vm_compute. repeat split; reflexivity. Qed.
